@@ -28,11 +28,16 @@ PROPS = {
                 "bucket boundaries +-1ns, whole years +-1ns, ties, far future; cancel selectors: any / at current time in an "
                 "indexed bucket / zero bucket / min / max / last of bucket / already fetched) under a swarm of (n,t); "
                 "distinct = distinct program hash; non-trivial = at least one fetch after a cancel, or a tie group >= 2, "
-                "or an event beyond the current calendar year",
+                "or an event beyond the current calendar year. Events at Duration::MAX are scheduled, cancelled and dropped "
+                "(never fetched). One program in eight drives the event set through des::runtime::Runtime instead: "
+                "paused at limits (dispatch_n_events / dispatch_events_until), events added from outside between the "
+                "current time and the pending events, resumed; oracle there = every scheduled event handled exactly once "
+                "in non-decreasing order of the scheduled timestamps",
         "fault_probes": ["cancel_pending", "cancel_at_current_time_in_bucket", "cancel_in_zero_bucket", "cancel_already_fetched"],
         "expected_probes": ["cancel_at_current_time_in_bucket", "cancel_in_zero_bucket", "cancel_already_fetched",
-                            "add_at_current_time", "add_beyond_year", "tie_created", "fetch_from_zero_bucket"],
-        "components": {"real": REAL_FES, "stub": STUB_FES},
+                            "add_at_current_time", "add_beyond_year", "tie_created", "fetch_from_zero_bucket",
+                            "event_at_duration_max", "external_add_while_paused"],
+        "components": {"real": REAL_FES + ["des::runtime::Runtime, FutureEventSet (real code, one program in eight)"], "stub": STUB_FES + ["Application / Event implementations (runtime-level programs)"]},
         "assumptions": ["reference priority queue (Vec of (time, seq, state)) is the oracle",
                         "single fetch scans at most 200000 buckets (far-future times are capped)",
                         "sampled histories, not exhaustive"],
@@ -51,8 +56,9 @@ PROPS = {
                 "add_event / add_event_in, before run / from at_sim_start / from handlers, start time in {0, small, large}, "
                 "attempts to schedule before the current simulated time; distinct = distinct program hash; non-trivial = >= 1 "
                 "handler-scheduled event and (non-zero start time or >= 1 past attempt)",
-        "fault_probes": ["past_attempt", "past_root_attempt"],
-        "expected_probes": ["past_attempt", "past_root_attempt", "nonzero_start_time", "zero_delay_child", "tie_adjacent_pairs", "run_beyond_2_pow_64_ns"],
+        "fault_probes": ["past_attempt", "past_root_attempt", "other_thread_built_a_runtime_during_a_handler"],
+        "expected_probes": ["past_attempt", "past_root_attempt", "nonzero_start_time", "zero_delay_child", "tie_adjacent_pairs", "run_beyond_2_pow_64_ns",
+                            "other_thread_built_a_runtime_during_a_handler", "clock_checked_under_stepping"],
         "components": {"real": ["des::runtime::{Runtime, Builder, FutureEventSet}, des::time::SimTime, des-cqueue (real code)"],
                        "stub": ["Application / Event implementations: harness interpreter of the generated program"]},
         "assumptions": ["cqueue backend (default feature set)", "sampled programs, not exhaustive"],
@@ -109,7 +115,8 @@ PROPS = {
                 "scheduled for the current instant first in FIFO order, then by (timestamp, scheduling order)); "
                 "distinct = distinct program hash; non-trivial = a tie group >= 2 was created",
         "fault_probes": ["cancel_pending"],
-        "expected_probes": ["tie_created", "add_at_current_time", "fetch_from_zero_bucket", "add_beyond_year"],
+        "expected_probes": ["tie_created", "add_at_current_time", "fetch_from_zero_bucket", "add_beyond_year",
+                            "tie_rule_checked_under_stepping", "external_add_lands_in_tie_group"],
         "components": {"real": REAL_FES + ["des::runtime::Runtime (real code)"], "stub": STUB_FES + ["Application / Event implementations"]},
         "assumptions": ["claimed for the cqueue backend only (default feature set), as the property says",
                         "sampled histories, not exhaustive"],
@@ -128,8 +135,9 @@ PROPS = {
                 "{system,512,1024,4096,16384} x (n,t); oracle = shadow allocation map fed by the allocator observer hook "
                 "+ per-payload drop ledger + payload checksum; distinct = distinct program hash; non-trivial = (>= 2 pages "
                 "in use and a freed node address handed out again) or queue dropped with events pending",
-        "fault_probes": ["dropped_with_pending", "dropped_with_zero_bucket_pending", "cancel_pending"],
-        "expected_probes": ["dropped_with_pending", "dropped_with_zero_bucket_pending", "freed_node_reused", "multi_page_run"],
+        "fault_probes": ["dropped_with_pending", "dropped_with_zero_bucket_pending", "cancel_pending", "destructor_panic_during_cancel", "destructor_panic_injected", "queue_dropped_during_unwinding"],
+        "expected_probes": ["dropped_with_pending", "dropped_with_zero_bucket_pending", "freed_node_reused", "multi_page_run",
+                            "event_at_duration_max", "node_of_page_size_minus_8", "destructor_panic_during_cancel"],
         "components": {"real": REAL_FES, "stub": STUB_FES},
         "assumptions": ["allocator observer hook reports every allocate/deallocate/page event truthfully",
                         "payloads whose node does not fit a page are outside the property and not generated",
@@ -181,7 +189,7 @@ PROPS.update({
         rule="chain shapes x connect permutations/orientations x channel placement x both directions x send / send_in; distinct = distinct "
              "program hash; non-trivial = a chain of >= 3 gates exists and at least one message was sent",
         fault_probes=["illegal_connect_rejected"],
-        expected_probes=["illegal_connect_rejected", "chain_of_three_or_more_gates", "delayed_send", "hop_with_channel", "offer_over_a_link_connected_at_run_time"],
+        expected_probes=["illegal_connect_rejected", "chain_of_three_or_more_gates", "delayed_send", "hop_with_channel", "offer_over_a_link_connected_at_run_time", "delayed_send_issued_before_its_gate_was_connected"],
         assumptions=["jitter 0 on all channels of C08 scenarios", "sampled, not exhaustive"]),
     "C12": net_prop(
         level_text="Seeded exploration: module trees (depth <= 4, fan-out <= 5, prefix-sharing names) inserted in random valid orders with 1..4 "
@@ -300,6 +308,6 @@ PROPS.update({
         rule="async module programs x number of runnable tasks x chain depth x per-poll work; distinct = distinct program hash; non-trivial = an "
              "instant with >= 2 task resumptions",
         fault_probes=["module_event_with_61_or_more_polls"],
-        expected_probes=["module_event_with_61_or_more_polls", "task_polls"],
+        expected_probes=["module_event_with_61_or_more_polls", "task_polls", "block_handler_awaits_spawned_worker"],
         assumptions=["sampled, not exhaustive"]),
 })
